@@ -4,9 +4,9 @@ import Convergen.Props.BuilderInv
 
 From the structural invariant of `BuilderInv`: for every fuel, every `go/types` oracle, every option
 set — each destination leaf that is reachable through accessible members lies under exactly one
-statement: a line (assignment, `// skip:`, `// no match:`) on the leaf itself or on an enclosing
-struct member, or a `dropped` statement (the nested-struct pair without content, which renders no
-line — the one way a member is lost; see the witness in `Props/C05`).
+line (assignment, `// skip:`, `// no match:`), on the leaf itself or on an enclosing struct member.
+(Before the repair recorded in known_findings — nested struct pair without content — a member could
+be lost without a line; the model then had a `dropped` statement and the theorem counted it.)
 
 The only assumption is Go's own rule that the field names of one struct are distinct
 (`DistinctFields`), which the harness validates on every generated input.
@@ -100,7 +100,6 @@ def marks : Stmt → List Node
   | .noMatch l _ => [l]
   | .simple l _ _ _ => [l]
   | .nest _ _ _ _ body _ => marksList body
-  | .dropped _ _ => []
   | .sliceCopy l _ _ => [l]
   | .sliceLoop l _ _ => [l]
   | .sliceCast l _ _ _ => [l]
@@ -109,42 +108,30 @@ def marksList : List Stmt → List Node
   | s :: ss => marks s ++ marksList ss
 end
 
-mutual
-/-- the members lost without a line -/
-def drops : Stmt → List Node
-  | .nest _ _ _ _ body _ => dropsList body
-  | .dropped l _ => [l]
-  | _ => []
-def dropsList : List Stmt → List Node
-  | [] => []
-  | s :: ss => drops s ++ dropsList ss
-end
+/-- how many lines account for member `m`: lines on `m` itself or on an enclosing member -/
+def cnt (m : Node) (s : Stmt) : Nat := (marks s).countP (anc · m)
+def cntList (m : Node) (ss : List Stmt) : Nat := (marksList ss).countP (anc · m)
 
-/-- how many lines or drops account for member `m` -/
-def cnt (m : Node) (s : Stmt) : Nat := (marks s).countP (anc · m) + (drops s).countP (anc · m)
-def cntList (m : Node) (ss : List Stmt) : Nat := (marksList ss).countP (anc · m) + (dropsList ss).countP (anc · m)
-
-theorem cntList_nil (m : Node) : cntList m [] = 0 := by simp [cntList, marksList, dropsList]
+theorem cntList_nil (m : Node) : cntList m [] = 0 := by simp [cntList, marksList]
 
 theorem cntList_cons (m : Node) (s : Stmt) (ss : List Stmt) : cntList m (s :: ss) = cnt m s + cntList m ss := by
-  simp only [cntList, cnt, marksList, dropsList, List.countP_append]; omega
+  simp only [cntList, cnt, marksList, List.countP_append]
 
 theorem cnt_nest (m l r : Node) (i n : String) (body : List Stmt) (w : List String) :
     cnt m (.nest l r i n body w) = cntList m body := by
-  simp [cnt, cntList, marks, drops]
+  simp [cnt, cntList, marks]
 
-/-- a statement that is not a nested block puts exactly its own member on the page (or drops it) -/
+/-- a statement that is not a nested block puts exactly its own member on the page -/
 theorem cnt_leafStmt (m : Node) (s : Stmt) (hn : ∀ l r i n body w, s ≠ .nest l r i n body w) :
     cnt m s = if anc (Stmt.lhs s) m then 1 else 0 := by
   cases s with
   | nest l r i n body w => exact absurd rfl (hn l r i n body w)
-  | skip l => by_cases h : anc l m = true <;> simp [cnt, marks, drops, Stmt.lhs, List.countP_cons, h]
-  | noMatch l w => by_cases h : anc l m = true <;> simp [cnt, marks, drops, Stmt.lhs, List.countP_cons, h]
-  | simple l r e w => by_cases h : anc l m = true <;> simp [cnt, marks, drops, Stmt.lhs, List.countP_cons, h]
-  | dropped l w => by_cases h : anc l m = true <;> simp [cnt, marks, drops, Stmt.lhs, List.countP_cons, h]
-  | sliceCopy l r t => by_cases h : anc l m = true <;> simp [cnt, marks, drops, Stmt.lhs, List.countP_cons, h]
-  | sliceLoop l r t => by_cases h : anc l m = true <;> simp [cnt, marks, drops, Stmt.lhs, List.countP_cons, h]
-  | sliceCast l r t c => by_cases h : anc l m = true <;> simp [cnt, marks, drops, Stmt.lhs, List.countP_cons, h]
+  | skip l => by_cases h : anc l m = true <;> simp [cnt, marks, Stmt.lhs, List.countP_cons, h]
+  | noMatch l w => by_cases h : anc l m = true <;> simp [cnt, marks, Stmt.lhs, List.countP_cons, h]
+  | simple l r e w => by_cases h : anc l m = true <;> simp [cnt, marks, Stmt.lhs, List.countP_cons, h]
+  | sliceCopy l r t => by_cases h : anc l m = true <;> simp [cnt, marks, Stmt.lhs, List.countP_cons, h]
+  | sliceLoop l r t => by_cases h : anc l m = true <;> simp [cnt, marks, Stmt.lhs, List.countP_cons, h]
+  | sliceCast l r t c => by_cases h : anc l m = true <;> simp [cnt, marks, Stmt.lhs, List.countP_cons, h]
 
 /-! ## the invariant, all levels down -/
 
@@ -236,7 +223,7 @@ theorem visited_nodup (hd : DistinctFields ctx.env) (l : Node) : (visited ctx l)
 
 /-- everything a covered statement puts on the page lies at or below its member -/
 theorem marks_below : ∀ (fuel : Nat) (l : Node) (ss : List Stmt), Covered ctx fuel l ss →
-    ∀ k, (k ∈ marksList ss ∨ k ∈ dropsList ss) → ∃ v, v ∈ visited ctx l ∧ anc v k = true := by
+    ∀ k, k ∈ marksList ss → ∃ v, v ∈ visited ctx l ∧ anc v k = true := by
   intro fuel
   induction fuel with
   | zero => intro l ss h; exact absurd h (by simp [Covered])
@@ -245,32 +232,29 @@ theorem marks_below : ∀ (fuel : Nat) (l : Node) (ss : List Stmt), Covered ctx 
     simp only [Covered] at h
     generalize visited ctx l = vs at h ⊢
     induction h with
-    | nil => intro k hk; simp [marksList, dropsList] at hk
+    | nil => intro k hk; simp [marksList] at hk
     | @cons v s vs' ss' hvs _ ih2 =>
       intro k hk
-      simp only [marksList, dropsList, List.mem_append] at hk
-      have here : (k ∈ marks s ∨ k ∈ drops s) → ∃ v', v' ∈ v :: vs' ∧ anc v' k = true := by
+      simp only [marksList, List.mem_append] at hk
+      have here : k ∈ marks s → ∃ v', v' ∈ v :: vs' ∧ anc v' k = true := by
         intro hk'
         refine ⟨v, List.mem_cons_self, ?_⟩
         cases s with
         | nest l' r i n body w =>
           obtain ⟨_, hc⟩ := hvs.2 l' r i n body w rfl
-          simp only [marks, drops] at hk'
+          simp only [marks] at hk'
           obtain ⟨v2, hv2, ha⟩ := ih v body hc k hk'
           obtain ⟨n2, t2, rfl⟩ := visited_is_field ctx hv2
           exact anc_trans (anc_field n2 t2 (anc_refl _)) ha
-        | skip l' => simp only [marks, drops, List.mem_singleton, List.not_mem_nil, or_false] at hk'; subst hk'; have := hvs.1; simp only [Stmt.lhs] at this; subst this; exact anc_refl _
-        | noMatch l' w => simp only [marks, drops, List.mem_singleton, List.not_mem_nil, or_false] at hk'; subst hk'; have := hvs.1; simp only [Stmt.lhs] at this; subst this; exact anc_refl _
-        | simple l' r e w => simp only [marks, drops, List.mem_singleton, List.not_mem_nil, or_false] at hk'; subst hk'; have := hvs.1; simp only [Stmt.lhs] at this; subst this; exact anc_refl _
-        | dropped l' w => simp only [marks, drops, List.mem_singleton, List.not_mem_nil, false_or] at hk'; subst hk'; have := hvs.1; simp only [Stmt.lhs] at this; subst this; exact anc_refl _
-        | sliceCopy l' r t => simp only [marks, drops, List.mem_singleton, List.not_mem_nil, or_false] at hk'; subst hk'; have := hvs.1; simp only [Stmt.lhs] at this; subst this; exact anc_refl _
-        | sliceLoop l' r t => simp only [marks, drops, List.mem_singleton, List.not_mem_nil, or_false] at hk'; subst hk'; have := hvs.1; simp only [Stmt.lhs] at this; subst this; exact anc_refl _
-        | sliceCast l' r t c => simp only [marks, drops, List.mem_singleton, List.not_mem_nil, or_false] at hk'; subst hk'; have := hvs.1; simp only [Stmt.lhs] at this; subst this; exact anc_refl _
-      rcases hk with (hk | hk) | (hk | hk)
-      · exact here (Or.inl hk)
-      · obtain ⟨v', hv', ha⟩ := ih2 k (Or.inl hk); exact ⟨v', List.mem_cons_of_mem _ hv', ha⟩
-      · exact here (Or.inr hk)
-      · obtain ⟨v', hv', ha⟩ := ih2 k (Or.inr hk); exact ⟨v', List.mem_cons_of_mem _ hv', ha⟩
+        | skip l' => simp only [marks, List.mem_singleton] at hk'; subst hk'; have := hvs.1; simp only [Stmt.lhs] at this; subst this; exact anc_refl _
+        | noMatch l' w => simp only [marks, List.mem_singleton] at hk'; subst hk'; have := hvs.1; simp only [Stmt.lhs] at this; subst this; exact anc_refl _
+        | simple l' r e w => simp only [marks, List.mem_singleton] at hk'; subst hk'; have := hvs.1; simp only [Stmt.lhs] at this; subst this; exact anc_refl _
+        | sliceCopy l' r t => simp only [marks, List.mem_singleton] at hk'; subst hk'; have := hvs.1; simp only [Stmt.lhs] at this; subst this; exact anc_refl _
+        | sliceLoop l' r t => simp only [marks, List.mem_singleton] at hk'; subst hk'; have := hvs.1; simp only [Stmt.lhs] at this; subst this; exact anc_refl _
+        | sliceCast l' r t c => simp only [marks, List.mem_singleton] at hk'; subst hk'; have := hvs.1; simp only [Stmt.lhs] at this; subst this; exact anc_refl _
+      rcases hk with hk | hk
+      · exact here hk
+      · obtain ⟨v', hv', ha⟩ := ih2 k hk; exact ⟨v', List.mem_cons_of_mem _ hv', ha⟩
 
 
 /-- the per-statement form of the invariant -/
@@ -278,36 +262,33 @@ def StmtCov (fuel : Nat) (v : Node) (s : Stmt) : Prop :=
   Stmt.lhs s = v ∧ ∀ l' r i n body w, s = .nest l' r i n body w → body ≠ [] ∧ Covered ctx fuel v body
 
 theorem stmt_below (fuel : Nat) (v : Node) (s : Stmt) (h : StmtCov ctx fuel v s) (k : Node)
-    (hk : k ∈ marks s ∨ k ∈ drops s) : anc v k = true := by
+    (hk : k ∈ marks s) : anc v k = true := by
   cases s with
   | nest l' r i n body w =>
     obtain ⟨_, hc⟩ := h.2 l' r i n body w rfl
-    simp only [marks, drops] at hk
+    simp only [marks] at hk
     obtain ⟨v2, hv2, ha⟩ := marks_below ctx fuel v body hc k hk
     obtain ⟨n2, t2, rfl⟩ := visited_is_field ctx hv2
     exact anc_trans (anc_field n2 t2 (anc_refl _)) ha
-  | skip l' => simp only [marks, drops, List.mem_singleton, List.not_mem_nil, or_false] at hk; subst hk; have := h.1; simp only [Stmt.lhs] at this; subst this; exact anc_refl _
-  | noMatch l' w => simp only [marks, drops, List.mem_singleton, List.not_mem_nil, or_false] at hk; subst hk; have := h.1; simp only [Stmt.lhs] at this; subst this; exact anc_refl _
-  | simple l' r e w => simp only [marks, drops, List.mem_singleton, List.not_mem_nil, or_false] at hk; subst hk; have := h.1; simp only [Stmt.lhs] at this; subst this; exact anc_refl _
-  | dropped l' w => simp only [marks, drops, List.mem_singleton, List.not_mem_nil, false_or] at hk; subst hk; have := h.1; simp only [Stmt.lhs] at this; subst this; exact anc_refl _
-  | sliceCopy l' r t => simp only [marks, drops, List.mem_singleton, List.not_mem_nil, or_false] at hk; subst hk; have := h.1; simp only [Stmt.lhs] at this; subst this; exact anc_refl _
-  | sliceLoop l' r t => simp only [marks, drops, List.mem_singleton, List.not_mem_nil, or_false] at hk; subst hk; have := h.1; simp only [Stmt.lhs] at this; subst this; exact anc_refl _
-  | sliceCast l' r t c => simp only [marks, drops, List.mem_singleton, List.not_mem_nil, or_false] at hk; subst hk; have := h.1; simp only [Stmt.lhs] at this; subst this; exact anc_refl _
+  | skip l' => simp only [marks, List.mem_singleton] at hk; subst hk; have := h.1; simp only [Stmt.lhs] at this; subst this; exact anc_refl _
+  | noMatch l' w => simp only [marks, List.mem_singleton] at hk; subst hk; have := h.1; simp only [Stmt.lhs] at this; subst this; exact anc_refl _
+  | simple l' r e w => simp only [marks, List.mem_singleton] at hk; subst hk; have := h.1; simp only [Stmt.lhs] at this; subst this; exact anc_refl _
+  | sliceCopy l' r t => simp only [marks, List.mem_singleton] at hk; subst hk; have := h.1; simp only [Stmt.lhs] at this; subst this; exact anc_refl _
+  | sliceLoop l' r t => simp only [marks, List.mem_singleton] at hk; subst hk; have := h.1; simp only [Stmt.lhs] at this; subst this; exact anc_refl _
+  | sliceCast l' r t c => simp only [marks, List.mem_singleton] at hk; subst hk; have := h.1; simp only [Stmt.lhs] at this; subst this; exact anc_refl _
 
 /-- a statement about a member that does not enclose `m` contributes nothing to `m` -/
 theorem cnt_zero (fuel : Nat) (v m : Node) (s : Stmt) (h : StmtCov ctx fuel v s) (hv : anc v m = false) :
     cnt m s = 0 := by
-  have key : ∀ k, (k ∈ marks s ∨ k ∈ drops s) → anc k m = false := by
+  have key : ∀ k, k ∈ marks s → anc k m = false := by
     intro k hk
     cases hkm : anc k m with
     | false => rfl
     | true =>
       have := anc_trans (stmt_below ctx fuel v s h k hk) hkm
       rw [hv] at this; cases this
-  simp only [cnt, Nat.add_eq_zero_iff, List.countP_eq_zero]
-  constructor
-  · intro k hk; simp [key k (Or.inl hk)]
-  · intro k hk; simp [key k (Or.inr hk)]
+  simp only [cnt, List.countP_eq_zero]
+  intro k hk; simp [key k hk]
 
 /-- summing over the statements of one level: only the statement of the enclosing member counts -/
 theorem sum_one (m v : Node) (f : Node → Stmt → Prop)
@@ -410,7 +391,7 @@ theorem structToStruct_covers_once (hd : DistinctFields ctx.env) (fuel : Nat) (l
 /-- **nothing outside the reachable members is mentioned**: every line is on a member reached
 through accessible members only (so unexported members of imported types never appear) -/
 theorem marks_reachable : ∀ (fuel : Nat) (l : Node) (ss : List Stmt), Covered ctx fuel l ss →
-    ∀ k, (k ∈ marksList ss ∨ k ∈ dropsList ss) → Reach ctx l k := by
+    ∀ k, k ∈ marksList ss → Reach ctx l k := by
   intro fuel
   induction fuel with
   | zero => intro l ss h; exact absurd h (by simp [Covered])
@@ -421,34 +402,31 @@ theorem marks_reachable : ∀ (fuel : Nat) (l : Node) (ss : List Stmt), Covered 
         Forall₂ (fun v s => Stmt.lhs s = v ∧
           ∀ l' r i n body w, s = .nest l' r i n body w → body ≠ [] ∧ Covered ctx fuel v body) vs ss →
         (∀ v, v ∈ vs → v ∈ visited ctx l) →
-        ∀ k, (k ∈ marksList ss ∨ k ∈ dropsList ss) → Reach ctx l k := by
+        ∀ k, k ∈ marksList ss → Reach ctx l k := by
       intro vs ss hh
       induction hh with
-      | nil => intro _ k hk; simp [marksList, dropsList] at hk
+      | nil => intro _ k hk; simp [marksList] at hk
       | @cons v s vs' ss' hvs _ ih2 =>
         intro hsub k hk
-        simp only [marksList, dropsList, List.mem_append] at hk
+        simp only [marksList, List.mem_append] at hk
         have hvl : v ∈ visited ctx l := hsub v List.mem_cons_self
-        have here : (k ∈ marks s ∨ k ∈ drops s) → Reach ctx l k := by
+        have here : k ∈ marks s → Reach ctx l k := by
           intro hk'
           cases s with
           | nest l' r i n body w =>
             obtain ⟨_, hc⟩ := hvs.2 l' r i n body w rfl
-            simp only [marks, drops] at hk'
+            simp only [marks] at hk'
             exact Reach.step hvl (ih v body hc k hk')
-          | skip l' => simp only [marks, drops, List.mem_singleton, List.not_mem_nil, or_false] at hk'; subst hk'; have := hvs.1; simp only [Stmt.lhs] at this; subst this; exact Reach.here hvl
-          | noMatch l' w => simp only [marks, drops, List.mem_singleton, List.not_mem_nil, or_false] at hk'; subst hk'; have := hvs.1; simp only [Stmt.lhs] at this; subst this; exact Reach.here hvl
-          | simple l' r e w => simp only [marks, drops, List.mem_singleton, List.not_mem_nil, or_false] at hk'; subst hk'; have := hvs.1; simp only [Stmt.lhs] at this; subst this; exact Reach.here hvl
-          | dropped l' w => simp only [marks, drops, List.mem_singleton, List.not_mem_nil, false_or] at hk'; subst hk'; have := hvs.1; simp only [Stmt.lhs] at this; subst this; exact Reach.here hvl
-          | sliceCopy l' r t => simp only [marks, drops, List.mem_singleton, List.not_mem_nil, or_false] at hk'; subst hk'; have := hvs.1; simp only [Stmt.lhs] at this; subst this; exact Reach.here hvl
-          | sliceLoop l' r t => simp only [marks, drops, List.mem_singleton, List.not_mem_nil, or_false] at hk'; subst hk'; have := hvs.1; simp only [Stmt.lhs] at this; subst this; exact Reach.here hvl
-          | sliceCast l' r t c => simp only [marks, drops, List.mem_singleton, List.not_mem_nil, or_false] at hk'; subst hk'; have := hvs.1; simp only [Stmt.lhs] at this; subst this; exact Reach.here hvl
+          | skip l' => simp only [marks, List.mem_singleton] at hk'; subst hk'; have := hvs.1; simp only [Stmt.lhs] at this; subst this; exact Reach.here hvl
+          | noMatch l' w => simp only [marks, List.mem_singleton] at hk'; subst hk'; have := hvs.1; simp only [Stmt.lhs] at this; subst this; exact Reach.here hvl
+          | simple l' r e w => simp only [marks, List.mem_singleton] at hk'; subst hk'; have := hvs.1; simp only [Stmt.lhs] at this; subst this; exact Reach.here hvl
+          | sliceCopy l' r t => simp only [marks, List.mem_singleton] at hk'; subst hk'; have := hvs.1; simp only [Stmt.lhs] at this; subst this; exact Reach.here hvl
+          | sliceLoop l' r t => simp only [marks, List.mem_singleton] at hk'; subst hk'; have := hvs.1; simp only [Stmt.lhs] at this; subst this; exact Reach.here hvl
+          | sliceCast l' r t c => simp only [marks, List.mem_singleton] at hk'; subst hk'; have := hvs.1; simp only [Stmt.lhs] at this; subst this; exact Reach.here hvl
         have rest := ih2 (fun v' hv' => hsub v' (List.mem_cons_of_mem _ hv'))
-        rcases hk with (hk | hk) | (hk | hk)
-        · exact here (Or.inl hk)
-        · exact rest k (Or.inl hk)
-        · exact here (Or.inr hk)
-        · exact rest k (Or.inr hk)
+        rcases hk with hk | hk
+        · exact here hk
+        · exact rest k hk
     exact h' _ _ h (fun v hv => hv)
 
 /-- **no member is written twice, none beneath another**: two lines whose members are comparable
@@ -488,7 +466,7 @@ theorem marks_prefix_free (hd : DistinctFields ctx.env) : ∀ (fuel : Nat) (l : 
               intro k' hk'
               simp only [marksList, List.mem_append] at hk'
               rcases hk' with hk' | hk'
-              · exact ⟨v0, List.mem_cons_self, stmt_below ctx fuel v0 s0 h0 k' (Or.inl hk')⟩
+              · exact ⟨v0, List.mem_cons_self, stmt_below ctx fuel v0 s0 h0 k' hk'⟩
               · obtain ⟨v', hv', ha⟩ := ih0 k' hk'; exact ⟨v', List.mem_cons_of_mem _ hv', ha⟩
           exact this _ _ hrest
         have apart : ∀ v', v' ∈ vs' → ∀ a b, anc v a = true → anc v' b = true → anc a b = false ∧ anc b a = false := by
@@ -511,7 +489,7 @@ theorem marks_prefix_free (hd : DistinctFields ctx.env) : ∀ (fuel : Nat) (l : 
             simp only [List.countP_eq_zero]
             intro k' hk'
             obtain ⟨v', hv', ha⟩ := others k' hk'
-            simp [(apart v' hv' k k' (stmt_below ctx fuel v s hsv k (Or.inl hk)) ha).2]
+            simp [(apart v' hv' k k' (stmt_below ctx fuel v s hsv k hk) ha).2]
           rw [hz, Nat.add_zero]
           cases s with
           | nest l' r i n body w =>
@@ -521,7 +499,6 @@ theorem marks_prefix_free (hd : DistinctFields ctx.env) : ∀ (fuel : Nat) (l : 
           | skip l' => simp only [marks, List.mem_singleton] at hk; subst hk; simp [marks, anc_refl]
           | noMatch l' w => simp only [marks, List.mem_singleton] at hk; subst hk; simp [marks, anc_refl]
           | simple l' r e w => simp only [marks, List.mem_singleton] at hk; subst hk; simp [marks, anc_refl]
-          | dropped l' w => simp [marks] at hk
           | sliceCopy l' r t => simp only [marks, List.mem_singleton] at hk; subst hk; simp [marks, anc_refl]
           | sliceLoop l' r t => simp only [marks, List.mem_singleton] at hk; subst hk; simp [marks, anc_refl]
           | sliceCast l' r t c => simp only [marks, List.mem_singleton] at hk; subst hk; simp [marks, anc_refl]
@@ -530,7 +507,7 @@ theorem marks_prefix_free (hd : DistinctFields ctx.env) : ∀ (fuel : Nat) (l : 
           have hz : (marks s).countP (anc · k) = 0 := by
             simp only [List.countP_eq_zero]
             intro k' hk'
-            simp [(apart v' hv' k' k (stmt_below ctx fuel v s hsv k' (Or.inl hk')) ha).1]
+            simp [(apart v' hv' k' k (stmt_below ctx fuel v s hsv k' hk') ha).1]
           rw [hz, Nat.zero_add]
           exact ih2 hnd.2 (fun v' hv' => hsub v' (List.mem_cons_of_mem _ hv')) k hk
     exact hsum _ _ h (visited_nodup ctx hd l) (fun v hv => hv) k hk
@@ -583,7 +560,6 @@ theorem lines_are_marks (env : Env) : ∀ s : Stmt, lineLhsList (Stmt.toAssignme
   | .nest l r i n body w => by
     simp only [Stmt.toAssignments, lineLhsList, lineLhs, marks, List.append_nil]
     exact lines_are_marksList env body
-  | .dropped l w => by simp [Stmt.toAssignments, lineLhsList, marks]
   | .sliceCopy l r t => by simp [Stmt.toAssignments, lineLhsList, lineLhs, marks]
   | .sliceLoop l r t => by simp [Stmt.toAssignments, lineLhsList, lineLhs, marks]
   | .sliceCast l r t c => by simp [Stmt.toAssignments, lineLhsList, lineLhs, marks]
